@@ -82,7 +82,7 @@ ASSUMPTIONS = ['numpy ufuncs on the raw data are the reference for operator '
                'domain',
                'thresholds are finite; values=/equal= thresholds are '
                'integral when integer variables are present']
-BUDGET = {'quick': dict(examples=8000, max_s=240),
+BUDGET = {'quick': dict(examples=12000, max_s=240),
           'thorough': dict(examples=80000, max_s=1100)}
 
 FOPTS = dict(max_len=4, max_dims=4, max_vars=4, attrs=True, masked=True,
